@@ -78,6 +78,59 @@ def indexed_read(b, op):
     return None
 
 
+def _from_picos_table_search(ctx, prog, crate, fb, names):
+    """from_picos as a search of the unit table: `ALL.iter().rev().copied().find(|u| u.picos() <= picos).unwrap_or(PicoSec)`
+    with ALL listing every unit in ascending order (the sizes themselves are R18.1's picos() table): the first hit walking
+    down from the largest unit is the largest unit not exceeding the value - the unit the threshold chain selects - and a
+    value below the smallest size (0) falls back to PicoSec, as the chain's first test does."""
+    from lib.patheval import PathEval
+    from lib.symexpr import canon_cmp
+    allc = prog.bodies.get((crate, "time::fine_duration::TimeScale::ALL", -1))
+    if allc is None:
+        return False
+    arr = None
+    # the array literal itself lives in the constant's body or (for a `&[T]` constant) in its promoted constant
+    for (ck_, pth_, pr_), cb_ in prog.bodies.items():
+        if ck_ != crate or pth_ != "time::fine_duration::TimeScale::ALL":
+            continue
+        agg = {}
+        for bi, si, s_ in cb_.stmts(live_only=False):
+            if s_["k"] != "assign":
+                continue
+            rv = s_["rv"]
+            if rv["k"] == "agg" and rv["ak"] == "adt" and not s_["p"]["proj"]:
+                agg[s_["p"]["l"]] = rv["variant"]
+            if rv["k"] == "agg" and rv["ak"] == "array":
+                arr = [agg.get(o["p"]["l"]) if o.get("k") in ("copy", "move") else None for o in rv["ops"]]
+    ok_all = arr == list(names)
+    ctx.check(ok_all, "R18.1", ["TimeScale::ALL", "every-unit-ascending"], "TimeScale::ALL = %s, expected every unit in ascending order %s" % (arr, list(names)), allc.where(0))
+    calls = [c.callee.rsplit("::", 1)[-1] for c in fb.live_calls()]
+    order_ok = [x for x in calls if x in ("iter", "rev", "copied", "cloned", "find", "unwrap_or")] in (["iter", "rev", "copied", "find", "unwrap_or"], ["iter", "rev", "cloned", "find", "unwrap_or"],
+                                                                                                          ["iter", "rev", "find", "unwrap_or"]) and \
+        not any(x in ("skip", "take", "step_by", "filter", "skip_while", "take_while", "chain", "zip", "rposition", "position", "min", "max", "last", "nth") for x in calls)
+    uses_all = any(z.kind == "const" and "TimeScale::ALL" in str(z.a) + str(z.c) for c in fb.live_calls() if c.callee.rsplit("::", 1)[-1] == "iter" for z in fb.prov.op_src(c.args[0]))
+    uo = [c for c in fb.live_calls() if c.callee == "std::option::Option::unwrap_or"]
+    dflt = {z.a for z in fb.prov.op_src(uo[0].args[1]) if z.kind == "variant"} if len(uo) == 1 else set()
+    d0 = fb.prov.defs.get(0, [])
+    ret_ok = len(uo) == 1 and len(d0) == 1 and d0[0][0] == "C" and d0[0][1] == uo[0].bb
+    fd = [c for c in fb.live_calls() if c.callee.rsplit("::", 1)[-1] == "find" and "Iterator" in c.callee]
+    pred_ok = False
+    if len(fd) == 1 and fd[0].args[1].get("k") in ("copy", "move"):
+        for d in fb.prov.defs.get(fd[0].args[1]["p"]["l"], []):
+            if d[0] == "S" and d[3]["rv"]["k"] == "agg" and d[3]["rv"].get("ak") == "closure":
+                cl = prog.bodies.get((fb.crate, norm(d[3]["rv"]["def"]), -1))
+                cs = PathEval(cl).run() if cl is not None else None
+                if cs and len(cs) == 1 and not cs[0].conds:
+                    atom, pol = canon_cmp(cs[0].ret, unsigned=False)
+                    # unit.picos() <= value  ==  not (value < unit.picos())
+                    if atom is not None and atom[0] == "Lt" and pol is False and atom[1][0] == "upvar" and atom[2][0] == "site" and atom[2][1] == "time::fine_duration::TimeScale::picos" and \
+                            len(d[3]["rv"]["ops"]) == 1 and {z.label() for z in fb.prov.op_src(d[3]["rv"]["ops"][0])} == {"param:" + fb.param_name(1)}:
+                        pred_ok = True
+    ctx.check(order_ok and uses_all and pred_ok and ret_ok and dflt == {"time::fine_duration::TimeScale::PicoSec"}, "R18.1", ["TimeScale::from_picos", "table-search"],
+              "from_picos is not `ALL.iter().rev().find(|u| u.picos() <= picos).unwrap_or(PicoSec)` (calls %s, default %s)" % (calls, sorted(dflt)), fb.where(0))
+    return True
+
+
 def r18_1(ctx, prog, crate):
     names = tables.variant_names(prog, "time::fine_duration::TimeScale", crate)
     if not ctx.check(names == UNITS, "R18.1", ["TimeScale", "variants"], "TimeScale variants: %s" % names, None):
@@ -122,9 +175,12 @@ def r18_1(ctx, prog, crate):
     last = {s["rv"]["variant"] for y in tables.exclusive_blocks(fb, last_zero[0], [last_zero[1]]) for s in fb.blocks[y]["stmts"]
             if s["k"] == "assign" and s["p"]["l"] == 0 and s["rv"]["k"] == "agg"} if last_zero is not None else set()
     want = [("Lt", ["param:" + fb.param_name(1)], PICOS[i + 1], [UNITS[i]]) for i in range(7)]
-    ctx.check(chain == want, "R18.1", ["TimeScale::from_picos", "threshold-chain"],
-              "from_picos tests %s; expected picos < next unit's size => this unit, in ascending order" % chain, fb.where(0), detail=[list(c) for c in chain])
-    ctx.check(last == {"Day"}, "R18.1", ["TimeScale::from_picos", "fallthrough-is-Day"], "values >= one day select %s" % sorted(last), fb.where(0))
+    if not chain and _from_picos_table_search(ctx, prog, crate, fb, names):
+        ctx.ok("R18.1", "TimeScale::from_picos|table-search (largest unit of ALL, ascending, whose size does not exceed the value; PicoSec below the smallest)")
+    else:
+        ctx.check(chain == want, "R18.1", ["TimeScale::from_picos", "threshold-chain"],
+                  "from_picos tests %s; expected picos < next unit's size => this unit, in ascending order" % chain, fb.where(0), detail=[list(c) for c in chain])
+        ctx.check(last == {"Day"}, "R18.1", ["TimeScale::from_picos", "fallthrough-is-Day"], "values >= one day select %s" % sorted(last), fb.where(0))
     # sub-nanosecond override in Display
     db = prog.body("<time::fine_duration::FineDuration as std::fmt::Display>::fmt", crate)
     if ctx.anchor("R18.1", "Display for FineDuration", 1 if db else 0, 1):
@@ -594,6 +650,30 @@ def r18_4(ctx, prog, crate):
         ctx.check(got == ("div", P, ("int", DAY)), "R18.4", ["FineDuration::fmt", "integer-path", "whole-days"], "integer path prints %s" % show(got), tsx[0].line())
         lim = ("payload", "Some", 0, ("call", "core::num::checked_mul", (("int", DAY), M)))
         guard = [bi for bi, t in b.switches() if S.op(t["discr"]) in (("cmp", "Le", lim, P),)]
+        if not guard:
+            # the same test as a combinator: DAY.checked_mul(multiple).is_some_and(|d| picos >= d)
+            from lib.patheval import PathEval
+            from lib.symexpr import canon_cmp
+            for bi, t in b.switches():
+                e = S.op(t["discr"])
+                if not (e[0] == "site" and e[1] == "std::option::Option::is_some_and" and len(e[3]) == 2 and e[3][0] == ("call", "core::num::checked_mul", (("int", DAY), M))):
+                    continue
+                isa = b.call_at(e[2])
+                clo = None
+                if isa is not None and isa.args[1].get("k") in ("copy", "move"):
+                    for d in b.prov.defs.get(isa.args[1]["p"]["l"], []):
+                        if d[0] == "S" and d[3]["rv"]["k"] == "agg" and d[3]["rv"].get("ak") == "closure":
+                            clo = (prog.bodies.get((b.crate, norm(d[3]["rv"]["def"]), -1)), d[3]["rv"]["ops"])
+                if clo is None or clo[0] is None:
+                    continue
+                cs = PathEval(clo[0]).run()
+                if cs and len(cs) == 1 and not cs[0].conds:
+                    atom, pol = canon_cmp(cs[0].ret, unsigned=False)
+                    # picos >= d  ==  not (picos < d)
+                    if atom is not None and atom[0] == "Lt" and pol is False and atom[1][0] == "upvar" and atom[2] == ("arg", 2, ()) and len(clo[1]) == 1 and \
+                            S.op(clo[1][0]) in (P, ("sptr", (1, ("picos",)))) or (atom is not None and atom[0] == "Lt" and pol is False and atom[1][0] == "upvar" and atom[2] == ("arg", 2, ()) and
+                                                                                    len(clo[1]) == 1 and {z.label() for z in b.prov.op_src(clo[1][0])} == {"param:self.picos"}):
+                        guard = [bi]
         ok = len(guard) == 1
         if ok:
             t = b.term(guard[0])
